@@ -172,5 +172,27 @@ def run(ck, rng):
             locs = re.findall(r"\n\s+(github.com/ddddddO/gtree[^\n]*)\n\s+(/repo/[^\s]+)", etxt)
             ck.violation({"property": "C11", "kind": "data_race", "class": "race|" + (locs[0][1] if locs else "?"),
                           "case": rs[idx][0] if idx < len(rs) else "", "report": etxt[-1400:], "why": "the race detector reports unsynchronised access to shared memory"})
+    # several massive calls in flight at once (caller goroutines, different documents and writers), under the race detector
+    conc = []
+    for g in range(8 if ck.tier == "quick" else 120):
+        hs = []
+        for j in range(5):
+            its = [(1, b"r%d_%d" % (g, j))] + [(2, b"c%03d" % c) for c in range(rng.choice([30, 200]))] + [(1, b"s%d_%d" % (g, j)), (2, b"x")]
+            hs.append("o,%s,0,0,-,-,-,-,-,%s" % (rng.choice("dj"), hx(spell(its, plain_spelling(its)))))
+        conc.append("mchist " + "#".join(hs))
+    cres, ccrashes = run_impl(rexe, conc, per_case_timeout=60.0, env=env, max_abnormal=4)
+    for c, res in zip(conc, cres):
+        ck.case("race " + c[:200], True)
+        ck.count("race_build_concurrent_calls")
+        if res.split(" ")[0] in ("timeout", "crash", "panic") and not any("DATA RACE" in e for _, _, e in ccrashes):
+            ck.violation({"property": "C11", "kind": "massive_returns", "class": "concurrent_calls|" + res.split(" ")[0], "case": c[:3000], "got": res[:300],
+                          "why": "massive calls running at the same time do not all return normally"})
+    for idx, kind, etxt in ccrashes:
+        if "DATA RACE" in etxt:
+            import re
+            locs = re.findall(r"\n\s+(github.com/ddddddO/gtree[^\n]*)\n\s+(/repo/[^\s]+)", etxt)
+            ck.violation({"property": "C11", "kind": "data_race", "class": "race_between_calls|" + (locs[0][1] if locs else "?"),
+                          "case": conc[idx][:3000] if idx < len(conc) else "", "report": etxt[-1400:],
+                          "why": "the race detector reports unsynchronised access to memory shared BETWEEN two massive calls"})
     ck.extra["race_build_crashes"] = len(rcrashes)
     return ("instance", iinfo.get("failure", "")) if not iok else None
